@@ -100,7 +100,7 @@ def run_one(exe, seed, yield_, tmp, timeout=300):
     env["VF_TMP"] = d
     out = dict(seed=seed, yield_=yield_, reports=[], mismatches=[], calls=0, T=0, focus="", err="")
     res = {}
-    for mode in ("conc", "solo"):
+    for mode in ("conc", "solo", "solorev"):
         try:
             r = subprocess.run([exe, str(seed), mode] + (["yield"] if yield_ else []), stdout=subprocess.PIPE, stderr=subprocess.PIPE,
                                env=env, cwd=d, timeout=timeout)
@@ -127,6 +127,13 @@ def run_one(exe, seed, yield_, tmp, timeout=300):
         for a, b in zip(res["conc"], res["solo"]):
             if a != b:
                 out["mismatches"].append("concurrent '%s' vs alone '%s'" % (a, b))
+        # history independence: the same calls alone in the opposite order
+        if len(res["solorev"]) == len(res["solo"]):
+            for a, b in zip(res["solo"], res["solorev"]):
+                if a != b:
+                    out["mismatches"].append("alone '%s' vs alone in reverse order '%s'" % (a, b))
+        else:
+            out["mismatches"].append("different number of calls in the reversed sequential run")
     try:
         for root, dirs, files in os.walk(d, topdown=False):
             for n in files:
